@@ -18,10 +18,11 @@ def prepare_text_for_sql(model: Note) -> str:
     return result
 
 
-def generate_comment_on(model: Note, entity: str, name: str) -> str:
+def generate_comment_on(model: Note, entity: str, name: str, schema: str = 'public') -> str:
     """Generate a COMMENT ON clause out from this note."""
     quoted_text = f"'{prepare_text_for_sql(model)}'"
-    note_sql = f'COMMENT ON {entity.upper()} "{name}" IS {quoted_text};'
+    quoted_name = f'"{name}"' if schema == 'public' else f'"{schema}"."{name}"'
+    note_sql = f'COMMENT ON {entity.upper()} {quoted_name} IS {quoted_text};'
     return note_sql
 
 
@@ -34,8 +35,10 @@ def render_note(model: Note) -> str:
     """
 
     if model.text:
-        if isinstance(model.parent, (Table, Column)):
-            return generate_comment_on(model, model.parent.__class__.__name__, model.parent.name)
+        if isinstance(model.parent, Table):
+            return generate_comment_on(model, 'Table', model.parent.name, model.parent.schema)
+        elif isinstance(model.parent, Column):
+            return generate_comment_on(model, 'Column', model.parent.name)
         else:
             text = prepare_text_for_sql(model)
             return '\n'.join(f'-- {line}' for line in text.split('\n'))
